@@ -6,7 +6,7 @@ from vlib.harness import ok, skip, viol
 
 PID = "C08"
 RULE = ("Histories of 1-8 add_file calls on an initially blank DiskFile (default fill order or a Hypothesis permutation of "
-        "0..67 passed as granule_fill_order); files are machine-language / BASIC / ASCII with names 1-12 alphanumerics, "
+        "0..67 passed as granule_fill_order); files are machine-language / BASIC / ASCII with names 1-12 alphanumerics (a few enumerated names carry letters of the 8-bit character set), "
         "extensions 0-3, data lengths from the grid {0,1,2,5,10, 256k+-11, 2304k-16..+11} or uniform 0-6000 or up to "
         "40000, arbitrary content. After every add_file the independent fsck runs: size 161,280; chains within 0-67, no "
         "revisit, last-granule marker C0-C9; chains disjoint; every non-free FAT entry in exactly one chain; implied "
@@ -45,6 +45,10 @@ def enumerated(tier, seed):
     # names as they come off a tape whose name field is NUL padded, and a disk filled with 68 one-granule files
     yield dict(order=None, files=[f("AB\0\0\0\0\0\0", "ml", 300, 1), f("\0" * 8, "basic", 2400, 2), f("\0X", "ascii", 100, 3), f("LAST", "ml", 10, 4)])
     yield dict(order=None, files=[f("T%d" % i, ("ml", "basic", "ascii")[i % 3], 20 + i, i) for i in range(68)])
+    # names with letters of the 8-bit character set (one byte each in the directory field), in granules before and after
+    for order in _ORDERS[:2]:
+        yield dict(order=order, files=[f("FIRST", "ml", 5000, 1), f("CAF\u00c9", "ml", 300, 2), f("\u00d1A\u00fc", "basic", 2400, 3), f("LAST", "ascii", 100, 4)])
+        yield dict(order=order, files=[dict(f("NAME", "ml", 300, 2), ext="B\u00c9"), f("LAST", "ascii", 100, 4)])
     for order in _ORDERS[:2]:
         yield dict(order=order, files=[f("BIG1", "ml", 60000, 1), f("BIG2", "ml", 60000, 2), f("BIG3", "ml", 60000, 3), f("SML1", "basic", 100, 4), f("SML2", "ascii", 3000, 5)])
         yield dict(order=order, files=[f("A", "ascii", 65000, 1), f("B", "basic", 64000, 2), f("C", "ml", 30000, 3), f("D", "ml", 5000, 4)])
